@@ -443,7 +443,7 @@ int cif_parse(FILE *stream, struct cif_parse_opts_s *options, cif_tp **cifp) {
                  * There is a magic code for a CIF version other than 2.0, or there is no magic code and the caller
                  * has not opted to treat the input as CIF 2.0 in that case, or the user insists on CIF 1.
                  */
-                encoding_name = NULL;  /* use the default encoding */
+                encoding_name = options->default_encoding_name;  /* the default the user named, or the system's if NULL */
                 cif_version = 1;
             }
         }
